@@ -114,8 +114,6 @@ def worker_main():
                 if ty == 'E':       # Lcapy appends the default common-mode gain 0
                     rest = [r for r in rest if str(r) != '0']
                 extra += [str(r).replace(' ', '') for r in rest]
-            if kw == 'ac':
-                extra = []      # phase / frequency arguments: re-emitted with defaults, never combined
             out.append([nm, list(elt.node_names), kw, val, ic, extra])
         return out
 
@@ -314,7 +312,7 @@ class Gen:
         self.features.append(feat)
 
 
-def gen_circuit(rng, idx):
+def gen_circuit_any(rng, idx):
     flavour = ['dc', 'step', 'ivp'][idx % 3]
     g = Gen(rng, flavour)
     nb = rng.choice([2, 3, 3, 4])
@@ -402,6 +400,14 @@ def gen_circuit(rng, idx):
         elts.append(e)
     rng.shuffle(elts)
     return {'flavour': flavour, 'elts': elts, 'features': g.features}
+
+
+def gen_circuit(rng, idx):
+    """size-capped circuits: symbolic solving time grows quickly with the number of reactances"""
+    while True:
+        ck = gen_circuit_any(rng, idx)
+        if len(ck['elts']) <= 15 and sum(1 for e in ck['elts'] if e['ty'] in ('L', 'C')) <= 6:
+            return ck
 
 
 def val_text(e, s0):
@@ -620,11 +626,7 @@ def run(chk, replay=None):
     drv = chk.get_driver()
     rng = chk.rng
     quick = chk.tier == 'quick'
-    if os.environ.get('VERIF_C05_PROPOSED'):
-        # development aid only: also honour the entries proposed to the coordinator
-        pf = os.path.join(common.VERIF, 'corpus', 'C05', 'proposed-known-findings.json')
-        chk.findings = chk.findings + json.load(open(pf))['findings']
-    ncirc = 24 if quick else 220
+    ncirc = 60 if quick else 120
     seeds = [0, 1] if quick else [0, 1, 2, 3, 4, 5, 6, 7]
     chk.coverage['rule'] = ('each case = (generated netlist, rewrite with its arguments, PYTHONHASHSEED); netlists: random '
                             'connected skeleton of 2-4 nodes whose branches are single elements, series chains (2-4 like '
@@ -712,7 +714,8 @@ def run(chk, replay=None):
             elif op == 'renumber':
                 mp = ' '.join('%s:%s' % (a, b) for a, b in sorted(kw.get('node_map', {}).items()))
                 model_raw = drv.ask1('rw.renumber %s || %s' % (mp, ' | '.join(orig_lines)))
-                model_outs = {model_raw: []} if model_raw.startswith('err:') else {key_of(parse_model_net(model_raw)): []}
+                model_outs = ({'err:' + model_raw.split(':')[1]: []} if model_raw.startswith('err:')
+                              else {key_of(parse_model_net(model_raw)): []})
             elif op == 'copy':
                 model_outs = {key_of(orig_canon): []}
             outcomes_seen = set()
@@ -826,6 +829,18 @@ def run(chk, replay=None):
                 if op == 'renumber' and any(x[0][0] in 'LC' and x[3] is not None and x[4] is None for x in orig_canon):
                     # Cpt._netsubs prints the absent initial condition of an L or C as the word `None`
                     flagged.append(('-', '-', 'absent-ic-printed'))
+                def stranded(canon_net):
+                    """nodes that only open-circuit components (not counted by Node._count) still touch"""
+                    cnt = {}
+                    for x in canon_net:
+                        for n in x[1]:
+                            cnt.setdefault(n, [0, 0])
+                            cnt[n][0 if x[0][0] in 'OA' else 1] += 1
+                    return {n for n, (o, r) in cnt.items() if o > 0 and r == 0}
+                if stranded(rr['canon']) - stranded(orig_canon):
+                    # dangling removal does not count open-circuit components: it strips everything
+                    # an `O` observer is attached to and leaves the observer on a floating node
+                    flagged.append(('-', '-', 'observer-stranded'))
                 if not flagged:
                     flagged = [('-', '-', 'none')]
                 if os.environ.get('VERIF_C05_DEBUG'):
@@ -842,6 +857,13 @@ def run(chk, replay=None):
             if len(outcomes_seen) > 1:
                 seed_dependent += 1
                 chk.count('hash-seed', 'outcome-depends-on-seed')
+                counterexamples += 1
+                chk.counterexample({'rewrite': 'simplify' if op.startswith('simplify') else op, 'cause': 'hash-seed-dependent'},
+                                   {'input': {'lines': c['lines'], 'rewrite': rw, 'pts': c['pts'], 's0': c['s0'],
+                                              'features': c['features'], 'flavour': c['flavour']},
+                                    'lcapy': sorted(str(o)[:300] for o in outcomes_seen),
+                                    'spec': 'the rewritten netlist must not depend on PYTHONHASHSEED (quantifier: every hash seed)'},
+                                   '%s gives different netlists under different PYTHONHASHSEED values' % op)
             else:
                 chk.count('hash-seed', 'same-outcome')
     chk.coverage['seed_dependent_rewrites'] = seed_dependent
